@@ -84,6 +84,7 @@ func GetKeyFromPassword(passwd string, cname types.PrincipalName, realm string, 
 				continue
 			}
 			salt = string(pa.PADataValue)
+			paID = pa.PADataType
 		case patype.PA_ETYPE_INFO:
 			if paID > pa.PADataType {
 				continue
@@ -100,6 +101,7 @@ func GetKeyFromPassword(passwd string, cname types.PrincipalName, realm string, 
 				}
 			}
 			salt = string(eti[0].Salt)
+			paID = pa.PADataType
 		case patype.PA_ETYPE_INFO2:
 			if paID > pa.PADataType {
 				continue
@@ -119,6 +121,7 @@ func GetKeyFromPassword(passwd string, cname types.PrincipalName, realm string, 
 				sk2p = hex.EncodeToString(et2[0].S2KParams)
 			}
 			salt = et2[0].Salt
+			paID = pa.PADataType
 		}
 	}
 	if salt == "" {
